@@ -1,6 +1,8 @@
 // Check C15: accepted transactions are rebroadcast in dependency order until
-// confirmed; calls never block indefinitely (component part over
-// pushtx.NewBroadcaster).
+// confirmed; calls never block indefinitely. Component part over
+// pushtx.NewBroadcaster, then the L2 part: ChainService.SendTransaction
+// against simulated peers (the verdict rule) and the end-to-end rebroadcast
+// through the real client (internal/c15/l2.go).
 package main
 
 import (
@@ -10,10 +12,12 @@ import (
 	"os"
 	"runtime"
 	"sync"
+	"sync/atomic"
 	"time"
 
 	"verif/internal/c15"
 	"verif/internal/evid"
+	"verif/internal/l2"
 )
 
 var (
@@ -21,6 +25,8 @@ var (
 	replay   = flag.String("replay", "", "re-run the schedule stored in a replay file")
 	workers  = flag.Int("workers", 0, "parallel workers (default: number of CPUs)")
 	watchdog = flag.Duration("watchdog", 30*time.Second, "watchdog before goroutine-dump classification")
+	l2Case   = flag.Int("l2case", -1, "run only this L2 scenario in-process and print its result")
+	l2Only   = flag.Bool("l2only", false, "skip the component part (development aid; the floor still applies)")
 )
 
 type sample struct {
@@ -45,6 +51,20 @@ type witness struct {
 
 func main() {
 	r := evid.New("C15", "exploration")
+	if l2.IsChild() {
+		// Scenario child of the L2 part: runs one scenario and exits.
+		l2.RunScenarios(r, 0, 0, c15.L2Scenario)
+	}
+	if *l2Case >= 0 {
+		res := &l2.Result{Scenario: *l2Case}
+		c15.L2Scenario(r.Seed, *l2Case, res)
+		b, _ := json.MarshalIndent(res, "", " ")
+		fmt.Println(string(b))
+		if len(res.Violations) > 0 {
+			os.Exit(1)
+		}
+		return
+	}
 	r.Rule("Each case is one schedule against a real pushtx.Broadcaster: a DAG of 1-12 real wire.MsgTx " +
 		"(shape classes single/chain/fanout/fanin/diamond/forest/random/multiedge), submitted in random order with scripted " +
 		"callback outcomes (nil, each BroadcastError code, plain error, custom-mapped errors) for the initial broadcast and for every " +
@@ -56,7 +76,7 @@ func main() {
 	r.Assume("RebroadcastInterval of 10h never fires in block-event schedules; rounds there come from block events only.")
 	r.Assume("Go goroutine ids are unique per process and runtime.Stack(all) lists every live goroutine with its creator.")
 	r.Assume("A transaction rejected DURING a rebroadcast is neither required nor forbidden in later rounds (code keeps it; statement is silent).")
-	r.Assume("L2 part (ChainService.SendTransaction verdict thresholds) is not covered here: sendTransaction needs connected peers.")
+	r.Assume(c15.L2Assume)
 
 	opt := c15.Options{Watchdog: *watchdog}
 
@@ -86,6 +106,9 @@ func main() {
 	}
 
 	n := r.Pick(300, 8000)
+	if *l2Only {
+		n = 0
+	}
 	nw := *workers
 	if nw <= 0 {
 		nw = runtime.NumCPU()
@@ -170,6 +193,33 @@ func main() {
 	r.Set("schedule_phase_wall_s", runWall.Seconds())
 	r.Set("max_round_size", maxRound(results))
 	floor := r.Pick(60, 300)
+
+	// L2 part: one child process per scenario.
+	l2Start := time.Now()
+	var l2Evaluated, l2Replied, l2AllowedFailures, l2Rebroadcasts atomic.Int64
+	nL2 := r.Pick(12, 200)
+	l2.RunScenariosCB(r, nL2, 240*time.Second, c15.L2Scenario, func(res *l2.Result) {
+		l2Evaluated.Add(res.Counters["l2_calls_evaluated"])
+		l2Replied.Add(res.Counters["l2_calls_with_replies"])
+		l2AllowedFailures.Add(res.Counters["l2_allowed_failures"])
+		l2Rebroadcasts.Add(res.Counters["l2_rebroadcast_seen_by_all_peers"])
+	})
+	r.Set("l2_phase_wall_s", time.Since(l2Start).Seconds())
+	r.Set("l2_scenarios", nL2)
+	if nL2 >= 12 {
+		// A silently broken L2 harness must not pass: the part has to have
+		// evaluated calls in which peers replied, seen at least one failure
+		// the statement allows (the rejects reached the client), and seen a
+		// rebroadcast arrive at every peer.
+		switch {
+		case l2Replied.Load() < int64(2*nL2):
+			r.Broken(fmt.Sprintf("L2 part evaluated only %d calls with peer replies in %d scenarios", l2Replied.Load(), nL2))
+		case l2AllowedFailures.Load() == 0:
+			r.Broken("L2 part never observed a SendTransaction failure that the statement allows: the failure path is unobserved")
+		case l2Rebroadcasts.Load() == 0:
+			r.Broken("L2 part never observed a rebroadcast reaching every peer")
+		}
+	}
 	if tickSchedules >= 5 && tickRounds == 0 {
 		// Whether an interval tick "should have fired by now" is a
 		// wall-clock question and therefore never a violation; but a run
